@@ -1,9 +1,10 @@
 /-!
 # LspShape family — shapes of LSP results (C26)
 
-* `SemanticBuilder` (crates/emmylua_ls/src/handlers/semantic_token/semantic_token_builder.rs):
-  `push_data` flattens a range that spans several lines into one entry per line when the client has no
-  multi-line token support; `build` sorts the entries by (line, col) and delta-encodes them.
+* `SemanticBuilder::build` (crates/emmylua_ls/src/handlers/semantic_token/semantic_token_builder.rs): drops
+  empty entries, sorts the entries by (line, col) (stable), collapses entries with the same start, clips
+  an entry where the next one on its line starts, delta-encodes. (`push_data`, which turns token ranges into
+  entries, is not modelled; its output is recorded by the hook and fed to the model by the tie.)
 * the decoder a client applies to `SemanticTokens.data`.
 * validators for the other structures: nested selection ranges, document symbols, folding ranges,
   pairwise disjoint text edits — over plain positions `(line, character)`.
@@ -28,23 +29,15 @@ structure Tok where
   mods : Nat
   deriving DecidableEq, Repr
 
-/-- `push_data`: `(startLine, startCol)`–`(endLine, endCol)` of a token range -/
-def pushData (multiLineSupport : Bool) (sl sc el ec typ mods : Nat) : List Entry :=
-  if !multiLineSupport && sl ≠ el then
-    ⟨sl, sc, 9999, typ, mods⟩ ::
-      ((List.range (el - (sl + 1))).map fun i => (⟨sl + 1 + i, 0, 9999, typ, mods⟩ : Entry)) ++
-      [⟨el, 0, ec, typ, mods⟩]
-  else [⟨sl, sc, ec - sc, typ, mods⟩]
-
-/-- the comparison of `sort_unstable_by` in `build` -/
+/-- the key comparison of `sort_by_key(|t| (t.line, t.col))` in `build` -/
 def keyLe (a b : Entry) : Bool := a.line < b.line || (a.line == b.line && a.col ≤ b.col)
 
 def insertE (e : Entry) : List Entry → List Entry
   | [] => [e]
   | x :: xs => if keyLe e x then e :: x :: xs else x :: insertE e xs
 
-/-- sort by (line, col) — insertion sort; the Rust sort is unstable, entries with equal keys may come in
-any order there (the producers never emit two entries with the same start: `seen_positions`) -/
+/-- sort by (line, col) — a stable insertion sort, like the Rust `sort_by_key` (stable): entries with the
+same start keep their push order -/
 def sortE : List Entry → List Entry
   | [] => []
   | e :: es => insertE e (sortE es)
@@ -57,8 +50,25 @@ def encode (pl pc : Nat) : List Entry → List Tok
     let pc' := if dl ≠ 0 then 0 else pc
     ⟨dl, e.col - pc', e.len, e.typ, e.mods⟩ :: encode e.line e.col es
 
+/-- the loop over the sorted entries in `build`: an entry with the same start as the previously kept one
+is dropped (first pushed wins); the previously kept entry is clipped where the next one on its line starts -/
+def clipFrom (prev : Entry) : List Entry → List Entry
+  | [] => [prev]
+  | b :: rest =>
+    if prev.line = b.line then
+      if prev.col = b.col then clipFrom prev rest
+      else { prev with len := min prev.len (b.col - prev.col) } :: clipFrom b rest
+    else prev :: clipFrom b rest
+
+def clip : List Entry → List Entry
+  | [] => []
+  | a :: rest => clipFrom a rest
+
+/-- what `build` encodes: empty entries dropped, stable sort by start, equal starts collapsed, overlaps clipped -/
+def normalize (es : List Entry) : List Entry := clip (sortE (es.filter fun e => 0 < e.len))
+
 /-- `SemanticBuilder::build` on the flattened entries -/
-def build (es : List Entry) : List Tok := encode 0 0 (sortE es)
+def build (es : List Entry) : List Tok := encode 0 0 (normalize es)
 
 /-- what a client does with `data` (LSP 3.17, "semantic tokens") -/
 def decode (line col : Nat) : List Tok → List Entry
@@ -85,6 +95,15 @@ def Ordered : List Entry → Prop
   | [] => True
   | [_] => True
   | a :: b :: rest => before a b ∧ Ordered (b :: rest)
+
+def decOrdered : (l : List Entry) → Decidable (Ordered l)
+  | [] => isTrue trivial
+  | [_] => isTrue trivial
+  | a :: b :: rest =>
+    match decOrdered (b :: rest) with
+    | isTrue h => if hb : before a b then isTrue ⟨hb, h⟩ else isFalse fun h' => hb h'.1
+    | isFalse h => isFalse fun h' => h h'.2
+instance (l : List Entry) : Decidable (Ordered l) := decOrdered l
 
 /-! ### positions and ranges -/
 
